@@ -28,7 +28,7 @@ fn linearise(lines: Vec<String>, ids: &[usize], out: &mut Out) -> (usize, usize)
             "Insert" => {
                 ni += 1;
                 let key = u64::from_str_radix(v["key"].as_str().unwrap(), 16).unwrap();
-                out.ev(json!({"ev": "Insert", "t": t, "version": v["version"], "key": key, "val": v["entry"]["depth"], "used": v["used"], "w": v["w"]}));
+                out.ev(json!({"ev": "Insert", "t": t, "version": v["version"], "key": key_json(key), "val": v["entry"]["depth"], "used": v["used"], "w": v["w"]}));
             }
             "Find" => {
                 nf += 1;
@@ -39,7 +39,7 @@ fn linearise(lines: Vec<String>, ids: &[usize], out: &mut Out) -> (usize, usize)
                     let d = v["entry"]["depth"].as_u64().unwrap();
                     v["entry"]["max"].as_u64().unwrap() == d + 1 && v["entry"]["eval"].as_i64().unwrap() == d as i64
                 } else { true };
-                out.ev(json!({"ev": "Find", "t": t, "version": v["version"], "key": key, "hit": hit, "val": if hit { v["entry"]["depth"].clone() } else { json!(-1) }, "whole": whole, "w": v["w"]}));
+                out.ev(json!({"ev": "Find", "t": t, "version": v["version"], "key": key_json(key), "hit": hit, "val": if hit { v["entry"]["depth"].clone() } else { json!(-1) }, "whole": whole, "w": v["w"]}));
             }
             _ => out.ev(json!({"ev": "Used", "t": t, "version": v["version"], "used": v["used"], "max": v["max"]})),
         }
@@ -47,9 +47,20 @@ fn linearise(lines: Vec<String>, ids: &[usize], out: &mut Out) -> (usize, usize)
     (ni, nf)
 }
 
+/// Model keys >= 100 stand for real keys that share their low 32 bits with model key k-100
+/// (6 * 2^32 keeps the residues modulo 2 and 3, i.e. the routing of the generated sequences).
+fn real_key(k: u64) -> u64 {
+    if k >= 100 { (k - 100) + 6 * (1u64 << 32) } else { k }
+}
+
+fn key_json(key: u64) -> Value {
+    assert!(key & 0xffff_ffff < (1 << 31));
+    json!({"hi": key >> 32, "lo": key & 0xffff_ffff})
+}
+
 fn run_ops(table: &verif::Table, ops: &[Value]) {
     for o in ops {
-        let k = o["k"].as_u64().unwrap();
+        let k = real_key(o["k"].as_u64().unwrap());
         match o["op"].as_str().unwrap() {
             "ins" => table.insert(k, o["v"].as_u64().unwrap() as u32),
             "find" => { let _ = table.find(k); }
@@ -124,6 +135,8 @@ pub fn hammer(args: &Args) {
         "aligned" => (0..nkeys as u64).map(|i| 1 + i * (t * b) as u64).collect(),
         // two buckets
         "collide" => (0..nkeys as u64).map(|i| (i % 2) + (i / 2) * (t * b) as u64 * 2).collect(),
+        // pairs of keys that agree in their low 32 bits (and in their low 48 bits) but are different keys
+        "highbits" => (0..nkeys as u64).map(|i| (1 + (i / 3) * (t * b) as u64) + [0u64, 1 << 32, 1 << 48][(i % 3) as usize] * (t * b) as u64).collect(),
         _ => { let mut r = ChaCha8Rng::seed_from_u64(seed ^ 99); (0..nkeys).map(|_| r.gen_range(0..1_000_000u64)).collect() }
     };
     verif::set_logging(true, false);
